@@ -39,6 +39,7 @@ type Step struct {
 	Written []int  `json:"written"`
 	Orig    []int  `json:"orig"` // pages the specification's flush set out to write
 	K       int    `json:"k"`    // setcache capacity
+	Bad     bool   `json:"bad"`  // CREATE TABLE with a column declaration the catalog cannot hold
 }
 
 type TabOut struct {
@@ -208,6 +209,9 @@ func bOf(v int) string {
 func renderStmt(st Step) string {
 	switch st.A {
 	case "create":
+		if st.Bad {
+			return fmt.Sprintf("CREATE TABLE %s (a INT, b VARCHAR(2147483648))", st.T)
+		}
 		return fmt.Sprintf("CREATE TABLE %s %s", st.T, colsOf(st.T))
 	case "insert":
 		var rows []string
